@@ -13,4 +13,16 @@ META = {
   "note": "Trusts grin_core::libtx::tx_fee as the network minimum and the harness's own spendability predicate; workload B covers tens (quick) to hundreds (thorough) of API calls, the bulk of the input space is covered at the selection-function boundary.",
   "technique": "runtime monitoring: conservation/eligibility invariant oracle over real selection executions (exhaustive small scope + sampled), API-level replay with LMDB state diff",
  },
+ "C08": {
+  "text": "Runtime monitoring with a differential oracle: every generated well-typed slate is pushed through all encoders/decoders of the real code and the decoded native values are compared field by field (original vs. decoded, path vs. path, and back at the SlateV4 level), several 10^4 slates x ~10 paths per run, with per-field hit counters proving that every optional field and boundary value was exercised.",
+  "design_ref": "DESIGN.md section 5 C08",
+  "note": "Trusts the harness's field-by-field equality (kernel of the embedded transaction excluded by design) and its notion of well-typed (documented bounds in the evidence assumptions).",
+  "technique": "runtime monitoring: differential round-trip oracle over all codec paths on structurally generated slates/records",
+ },
+ "C10": {
+  "text": "Runtime monitoring of the real packer/armor/age code: recipient and non-recipient decryption, cleartext search over every encoded form, and exhaustive-per-position (first messages) plus sampled edit campaigns with an independent checksum recomputation to recognise inherent 32-bit collisions; also through the owner API on real wallets.",
+  "design_ref": "DESIGN.md section 5 C10",
+  "note": "Confidentiality is judged by searching known encodings of the slate and sender (raw, hex, bech32, JSON) in every form; a leak in another encoding would be missed. Wrong keys are sampled.",
+  "technique": "runtime monitoring: decrypt/tamper/cleartext-search oracle over real slatepack encode/decode executions",
+ },
 }
